@@ -52,9 +52,11 @@ def findEq : List Nat → Nat → Option Nat
   | [], _ => none
   | c :: r, lim + 1 => if c = 61 then some 0 else (findEq r lim).map (· + 1)
 
-/-- One record off the front of `bs`: (key, value, rest). -/
-def parseRecord (bs : List Nat) : Option (List Nat × List Nat × List Nat) :=
-  let w := bs.take 512
+/-- One record off the front of `bs`: (key, value, rest).  `avail`: how many bytes the source has
+buffered; the reader asks for 512 (`max_size_name`) and looks at whatever it gets, so a key whose '='
+lies beyond the first 512 bytes of the record is found or not depending on the source's buffering. -/
+def parseRecord (bs : List Nat) (avail : Nat := 0) : Option (List Nat × List Nat × List Nat) :=
+  let w := bs.take (max 512 avail)
   match parseLen w 0 with
   | none => none
   | some (len, afterW) =>
@@ -74,13 +76,13 @@ def parseRecord (bs : List Nat) : Option (List Nat × List Nat × List Nat) :=
       some (key, value, bs.drop len)
 
 /-- All records of an extended header body. -/
-def parseRecords (fuel : Nat) (bs : List Nat) : Option (List (List Nat × List Nat)) :=
+def parseRecords (fuel : Nat) (bs : List Nat) (avail : Nat := 0) : Option (List (List Nat × List Nat)) :=
   match fuel with
   | 0 => if bs = [] then some [] else none
   | fuel + 1 =>
     if bs = [] then some [] else
-    match parseRecord bs with
+    match parseRecord bs avail with
     | none => none
-    | some (k, v, rest) => (parseRecords fuel rest).map ((k, v) :: ·)
+    | some (k, v, rest) => (parseRecords fuel rest avail).map ((k, v) :: ·)
 
 end LA.Pax
